@@ -20,6 +20,7 @@ type Opts struct {
 	TargetOpt       string        `json:"targetOpt,omitempty"`       // how the target dir is spelled: "" abs, "rel", "slash", "default" (cwd, no option), "raw"
 	TargetRaw       string        `json:"targetRaw,omitempty"`       // with TargetOpt "raw": cwd is the jail's target and this string is passed to WithTargetDir
 	PassEmptyTarget bool          `json:"passEmptyTarget,omitempty"` // pass WithTargetDir("") like the command line does when the flag is absent
+	EarlyOpts       bool          `json:"earlyOpts,omitempty"`       // the option values are constructed while the working directory is "/", the call runs in the case's own working directory
 }
 
 // AddStep is one Add call of a From-Root build program: node[i+1] = node[P].Add(N); node[0] is the root.
